@@ -5,6 +5,11 @@
 //
 //	files: builder width 2|{2,3}, "size-4", chunk counts 1..9 | 1..20, plus boxo balanced/trickle
 //	  files with protobuf leaves (n in {3,7});
+//	hand-built files (handbuilt_test.go): interior nodes with dag-pb children, including empty ones
+//	  (recorded block size 0): 32 shapes without a leading-empty child, CIDv1 and CIDv0 links, as
+//	  "file:hand=..."; 20 shapes (+3 with CIDv0 links) with a leading-empty child as
+//	  "file:leading-empty=..." (known finding: such a child is never requested and no error is
+//	  reported when it is unavailable; nothing else can fail under that name);
 //	HAMTs: fanouts {8,256} | {8,16,64,256,1024} with 120 | 1500 random + colliding names whose
 //	  entries point at multi-block files, at a plain directory and at another HAMT; also a plain
 //	  directory with such entries (nothing may be requested).
@@ -181,6 +186,8 @@ func TestBounded(t *testing.T) {
 			check(t, r, fmt.Sprintf("file:boxo-%s,n=%d", layout, n), st, root, order[1:], fileOps)
 		}
 	}
+
+	handBuilt(t, r)
 
 	builder.DefaultLinksPerBlock = 2
 	rng := vp.Rng(6)
